@@ -30,10 +30,16 @@ def raw_read(ex, p, ds, idx):
     return VDyn(_DAREAD(ds.t, p.sigma["data"][ds.t], box(ex.deref(p, idx))))
 
 
+def norm_sel(t):
+    """`dataset[:]` and "no selection" (None) both address the whole dataset"""
+    none3 = SliceDT.mk_slice(OptI.NoneI, OptI.NoneI, OptI.NoneI)
+    return z3.If(z3.And(Val.is_VSliceV(t), Val.sl(t) == none3), Val.VNone, t)
+
+
 @REG.specfunc()
 def ds_write(ex, p, old, idx, data):
     """content after `content[idx] = data` (assumed h5py/NumPy assignment semantics)"""
-    return VDyn(_WRITE(box(old), box(ex.deref(p, idx)), box(ex.deref(p, data))))
+    return VDyn(_WRITE(box(old), norm_sel(box(ex.deref(p, idx))), box(ex.deref(p, data))))
 
 
 @REG.specfunc()
